@@ -119,6 +119,25 @@ let lex_line (s : string) (np : bool) (proj : string) : string =
   in
   go (init_lexer (bytes_of_string s)) 0
 
+(* ---------- split (C12) ---------- *)
+let split_line (s : string) : string =
+  match split (bytes_of_string s) with
+  | LCrash -> "CRASH"
+  | LErr e -> Printf.sprintf "ERR %d %d" (int_of_nat e.e_pos) (int_of_nat e.e_end)
+  | LOk ps ->
+    let b = Buffer.create 128 in
+    List.iter (fun p -> Printf.bprintf b "%d,%d,%s " (int_of_nat p.pc_pos) (int_of_nat p.pc_end) (hexb p.pc_stmt)) ps;
+    Buffer.add_string b "| OK"; Buffer.contents b
+
+let line_fn proj s np =
+  if proj = "fn:split" then split_line s else lex_line s np proj
+
+let split_cases out =
+  try while true do
+    let s = string_of_hex (String.trim (input_line stdin)) in
+    Printf.fprintf out "%s => %s\n" (hex_of_string s) (split_line s)
+  done with End_of_file -> ()
+
 let lex_cases out np proj =
   try while true do
     let line = String.trim (input_line stdin) in
@@ -138,7 +157,7 @@ let lex_exh out alpha maxlen np prefix0 first proj verbose =
   let rec go prefix n =
     let blk = !count / 4096 in
     if verbose < 0 || blk = verbose then begin
-      let line = lex_line prefix np proj in
+      let line = line_fn proj prefix np in
       if verbose >= 0 then Printf.fprintf out "%s => %s\n" (hex_of_string prefix) line
       else h := hash_str !h line
     end;
@@ -155,6 +174,7 @@ let () =
    | ["file-exh"; n] -> file_exh out (int_of_string n)
    | ["file-cases"] -> file_cases out
    | ["errstr-cases"] -> errstr_cases out
+   | ["split-cases"] -> split_cases out
    | ["lex-cases"; m; proj] -> lex_cases out (m = "np") proj
    | ["lex-exh"; a; n; m; p; f; proj; _] -> lex_exh out a (int_of_string n) (m = "np") (string_of_hex p) (int_of_string f) proj (-1)
    | ["lex-exh"; a; n; m; p; f; proj; _; v] -> lex_exh out a (int_of_string n) (m = "np") (string_of_hex p) (int_of_string f) proj (int_of_string v)
